@@ -434,6 +434,13 @@ def oracle(names, cols, spec):
     ev = np.linalg.eigvalsh((C + C.T) / 2)
     if ev[0] < -1e-9:
         out.append(('fit:not-psd', float(ev[0]), 'eigvalsh >= -1e-9'))
+    # "a numerically singular matrix is regularised": the code's own notion of numerically singular
+    import sys
+    with np.errstate(all='ignore'):
+        cfinal = float(np.linalg.cond(C))
+    if not cfinal <= 1.0 / sys.float_info.epsilon:
+        out.append(('fit:singular-not-regularised', {'cond': cfinal, 'eig_min': float(ev[0])},
+                    'a numerically singular correlation (cond > 1/eps) is regularised'))
     # entry = Pearson correlation of the scores (independent two-pass formula)
     with np.errstate(all='ignore'):
         if np.isfinite(S).all():
@@ -581,7 +588,7 @@ def search(ctx, deep):
             ctx.fail_input('GaussianMultivariate.fit', payload_of(nm, cs, sp, kinds if nm == names else None),
                            obs, req, cls)
     ctx.support = {'tables_checked': checked, 'failures': found, 'deep': deep,
-                   'oracle': 'finite, symmetric, range, diagonal, constant columns, eigvalsh>=-1e-9, labels, '
+                   'oracle': 'finite, symmetric, range, diagonal, constant columns, eigvalsh>=-1e-9, cond<=1/eps, labels, '
                              'entry=pearson(scores), sample(5)/probability_density do not raise / no NaN'}
 
 
